@@ -543,6 +543,11 @@ class Translator:
         if not isinstance(node, ast.Call):
             return None
         key = node.func.id if isinstance(node.func, ast.Name) else None
+        if key is None and isinstance(node.func, ast.Attribute):
+            for name, target in self.calls.items():       # a method: "<type>.<name>" of a mapped raising call
+                if target.get("res") and name.endswith("." + node.func.attr):
+                    return target
+            return None
         target = self.calls.get(key)
         return target if target and target.get("res") else None
 
@@ -625,6 +630,10 @@ class Translator:
         if isinstance(stmt, ast.Return):
             if rest:
                 raise KernelError("statements after return")
+            if stmt.value is not None and self.monadic and self.res_call(stmt.value):
+                value = self.expr(stmt.value, env)       # `return f(...)` of a function that may raise: its result as it is
+                self.ret_types.append(value.typ)
+                return value.text
             if stmt.value is None:
                 if not self.spec.get("unit"):
                     raise KernelError("bare return")
